@@ -315,8 +315,65 @@ func (r *Reach) eval(v ssa.Value) Abs {
 		return r.nilnessOnly(r.Eval(v.X))
 	case *ssa.ChangeInterface:
 		return r.nilnessOnly(r.Eval(v.X))
+	case *ssa.Call:
+		if f := v.Call.StaticCallee(); f != nil && f.Pkg != nil && nonNilConstructors[f.Pkg.Pkg.Path()+"."+f.Name()] {
+			return NonNil
+		}
 	}
 	return Unknown
+}
+
+// nonNilConstructors never return nil.
+var nonNilConstructors = map[string]bool{
+	"errors.New": true, "fmt.Errorf": true,
+	"k8s.io/kubernetes/pkg/scheduler/framework.NewStatus":    true,
+	"k8s.io/kubernetes/pkg/scheduler/framework.AsStatus":     true,
+	"k8s.io/kube-scheduler/framework.NewStatus":              true,
+	"k8s.io/kube-scheduler/framework.AsStatus":               true,
+	"k8s.io/apimachinery/pkg/util/errors.NewAggregate":       false,
+	"k8s.io/apimachinery/pkg/api/errors.NewNotFound":         true,
+	"k8s.io/apimachinery/pkg/api/errors.NewBadRequest":       true,
+	"k8s.io/apimachinery/pkg/util/validation/field.Invalid":  true,
+	"k8s.io/apimachinery/pkg/util/validation/field.Required": true,
+	"k8s.io/apimachinery/pkg/util/validation/field.Forbidden": true,
+}
+
+// EvalAt evaluates v at instruction at: in addition to Eval it uses the branch outcomes that
+// dominate the instruction (v == nil / v != nil / v / !v tests of the same SSA value).
+func (r *Reach) EvalAt(v ssa.Value, at ssa.Instruction) Abs {
+	a := r.Eval(v)
+	if a != Unknown && a != Bottom {
+		return a
+	}
+	for _, g := range Guards(at) {
+		if g.Cond == v {
+			if g.Truth {
+				return True
+			}
+			return False
+		}
+		if b, ok := g.Cond.(*ssa.BinOp); ok && (b.Op == token.EQL || b.Op == token.NEQ) {
+			var other ssa.Value
+			if b.X == v {
+				other = b.Y
+			} else if b.Y == v {
+				other = b.X
+			} else {
+				continue
+			}
+			if c, ok := other.(*ssa.Const); ok && c.Value == nil {
+				isNil := (b.Op == token.EQL) == g.Truth
+				if isNil {
+					return Nil
+				}
+				return NonNil
+			}
+		}
+	}
+	if a == Bottom {
+		return Unknown
+	}
+	return a
 }
 
 func (r *Reach) nilnessOnly(a Abs) Abs {
